@@ -122,7 +122,10 @@ pub fn gen_world(seed: u64, idx: u64, s: &dyn SuiteOps, shared_tapes: bool, samp
                 let st = b.id();
                 let msg = b.id();
                 let tape = stape(&mut b, "loginrespond");
-                adv.push(Op::LoginRespond { st, msg, tape, setup: Ref::mem(setup), record: rec.map(Ref::mem), req: Ref::mem(*rq), cred: cred.clone().into(), ctx: ctx.clone().map(Into::into), ids: ids.clone() });
+                // the network is bytes: a third of the deliveries go through a codec
+                let vq = if g.chance(1, 3) { via(&mut g) } else { crate::suite::Codec::Mem };
+                let vr = if g.chance(1, 6) { via(&mut g) } else { crate::suite::Codec::Mem };
+                adv.push(Op::LoginRespond { st, msg, tape, setup: Ref::mem(setup), record: rec.map(|r| Ref::via(r, vr)), req: Ref::via(*rq, vq), cred: cred.clone().into(), ctx: ctx.clone().map(Into::into), ids: ids.clone() });
                 sessions.push((st, msg));
             }
         }
@@ -141,7 +144,9 @@ pub fn gen_world(seed: u64, idx: u64, s: &dyn SuiteOps, shared_tapes: bool, samp
                 }
             }
             let out = b.id();
-            adv.push(Op::LoginFinish { out, st: Ref::mem(*cst), pw: pw.clone().into(), resp: Ref::mem(*rs), ctx: ctx.clone().map(Into::into), ids: ids.clone(), ksf: ksf.clone() });
+            let vs = if g.chance(1, 4) { via(&mut g) } else { crate::suite::Codec::Mem };
+            let vr = if g.chance(1, 3) { via(&mut g) } else { crate::suite::Codec::Mem };
+            adv.push(Op::LoginFinish { out, st: Ref::via(*cst, vs), pw: pw.clone().into(), resp: Ref::via(*rs, vr), ctx: ctx.clone().map(Into::into), ids: ids.clone(), ksf: ksf.clone() });
             fins.push(out);
         }
     }
@@ -151,7 +156,8 @@ pub fn gen_world(seed: u64, idx: u64, s: &dyn SuiteOps, shared_tapes: bool, samp
     sstates.push(old.sst);
     for f in &fins {
         for st in &sstates {
-            adv.push(Op::ServerFinish { st: Ref::mem(*st), fin: Ref::mem(*f) });
+            let vs = if g.chance(1, 8) { via(&mut g) } else { crate::suite::Codec::Mem };
+            adv.push(Op::ServerFinish { st: Ref::via(*st, vs), fin: Ref::mem(*f) });
         }
     }
     let n_adv = adv.len();
